@@ -390,8 +390,9 @@ type Env struct {
 	// field access on object references: (ref term, field) -> term
 	FieldOf func(x Term, field string) (Term, bool)
 	Defs    map[string]*SpecDef
-	Sorts   map[string]*Sort   // named sorts (type parameters)
-	Funcs   map[string]FuncSym // uninterpreted function symbols visible to the contract ($key)
+	Sorts   map[string]*Sort                            // named sorts (type parameters)
+	Funcs   map[string]FuncSym                          // uninterpreted function symbols visible to the contract ($key)
+	Pure    func(name string, args []Term) (Term, bool) // application of a pure repository function
 }
 
 type FuncSym struct {
@@ -408,7 +409,7 @@ type SpecDef struct {
 }
 
 func (env *Env) child() *Env {
-	n := &Env{Vars: map[string]Term{}, Lookup: env.Lookup, Old: env.Old, FieldOf: env.FieldOf, Defs: env.Defs, Sorts: env.Sorts, Funcs: env.Funcs}
+	n := &Env{Vars: map[string]Term{}, Lookup: env.Lookup, Old: env.Old, FieldOf: env.FieldOf, Defs: env.Defs, Sorts: env.Sorts, Funcs: env.Funcs, Pure: env.Pure}
 	for k, v := range env.Vars {
 		n.Vars[k] = v
 	}
@@ -845,6 +846,11 @@ func callSMT(e *ECall, env *Env) Term {
 		s := a[0].S
 		return T(SBool, "(forall ((q!i Int) (q!j Int)) (=> (and (<= 0 q!i) (< q!i q!j) (< q!j (seq.len %s))) (not (= (select (seq.el %s) q!i) (select (seq.el %s) q!j)))))", s, s, s)
 	}
+	if env.Pure != nil {
+		if t, ok := env.Pure(e.Fn, a); ok {
+			return t
+		}
+	}
 	if fsym, ok := env.Funcs[e.Fn]; ok {
 		return T(fsym.Res, "(%s %s)", fsym.Name, joinTerms(a))
 	}
@@ -855,7 +861,7 @@ func callSMT(e *ECall, env *Env) Term {
 		if d.Rec {
 			return T(SInt, "(spec.%s %s)", d.Name, joinTerms(a))
 		}
-		c := &Env{Vars: map[string]Term{}, Defs: env.Defs}
+		c := &Env{Vars: map[string]Term{}, Defs: env.Defs, Pure: env.Pure, Sorts: env.Sorts}
 		for i, p := range d.Params {
 			c.Vars[p] = a[i]
 		}
